@@ -24,6 +24,14 @@
 //!       client side: ONE roots file (roots_live.pem) of this process, overwritten in place by "rotate" with the next
 //!       generation of the CA; "connect" = the application's tls_connect with that path against a server whose
 //!       certificate was issued by `srv`
+//!   RETURNING CLIENTS THAT RESUME: a connect with "keep":true (script / rscript) is made by a raw rustls client of this
+//!       harness whose `ClientConfig` - hence its resumption store - is KEPT for the whole script, one per client
+//!       certificate `cc` (same roots and client certificate files as every other client here). The script's "tls"
+//!       ("1.3", the default, or "1.2") is the only protocol version that client speaks. Its store is wrapped (SpyStore)
+//!       so that what it handed out for a ClientHello ("offered") and what the handshake put into it ("stored") can be
+//!       logged; "resumed" / "hs_kind" is rustls's own `handshake_kind()` of the client end ("srv_resumed": of the server
+//!       end, duplex only). These fields are logged for EVERY connect (a client built by `tls_connect` keeps nothing:
+//!       keep = false, offered = false). Nothing is judged here.
 //!   optional "alg", "namekind", "pki" pin the PKI parameters (replay files: logged lines are valid input;
 //!   lines with "ev":"step" / "rstep" / "cstep" are ignored)
 //!
@@ -164,15 +172,32 @@ fn cert_info(der: &[u8]) -> Option<(u64, String, String)> {
     Some((serial, name_cn(issuer)?, name_cn(subject)?))
 }
 
+/// SHA-1 fingerprint (hex) of a certificate, as `openssl x509 -fingerprint` prints it
+fn fingerprint(der: &[u8]) -> String {
+    use sha1::{Digest, Sha1};
+    let mut h = Sha1::new();
+    h.update(der);
+    h.finalize().iter().map(|b| format!("{b:02x}")).collect()
+}
+
 fn peer_info(certs: Option<&[rustls::pki_types::CertificateDer<'_>]>) -> Value {
     match certs.and_then(|c| c.first()) {
-        None => json!({"cn": "", "serial": -1, "issuer": "", "n": 0}),
+        None => json!({"cn": "", "serial": -1, "issuer": "", "n": 0, "fp": ""}),
         Some(c) => match cert_info(c.as_ref()) {
             Some((serial, issuer, cn)) => {
-                json!({"cn": cn, "serial": serial, "issuer": issuer, "n": certs.map_or(0, <[_]>::len)})
+                json!({"cn": cn, "serial": serial, "issuer": issuer, "n": certs.map_or(0, <[_]>::len), "fp": fingerprint(c.as_ref())})
             }
-            None => json!({"cn": "?", "serial": -2, "issuer": "?", "n": certs.map_or(0, <[_]>::len)}),
+            None => json!({"cn": "?", "serial": -2, "issuer": "?", "n": certs.map_or(0, <[_]>::len), "fp": fingerprint(c.as_ref())}),
         },
+    }
+}
+
+fn kind_text(k: Option<rustls::HandshakeKind>) -> String {
+    match k {
+        None => String::new(),
+        Some(rustls::HandshakeKind::Full) => "full".into(),
+        Some(rustls::HandshakeKind::FullWithHelloRetryRequest) => "full_hrr".into(),
+        Some(rustls::HandshakeKind::Resumed) => "resumed".into(),
     }
 }
 
@@ -400,6 +425,14 @@ struct Side {
     err: String,
     peer: Value,
     proto: String,
+    /// rustls's `handshake_kind()` of this end: "full" | "full_hrr" | "resumed" | "" (no handshake completed)
+    kind: String,
+    /// client end, returning clients only: the store handed out a ticket / session for this ClientHello
+    offered: bool,
+    /// client end, returning clients only: tickets / sessions this connect put into the store
+    stored: u64,
+    /// client end: made by a returning client (a kept ClientConfig)
+    keep: bool,
 }
 
 impl Side {
@@ -476,7 +509,156 @@ async fn client_side(io: DuplexStream, cfg: ClientCfg) -> (Side, Option<ClientSt
             let mut side = Side::new();
             side.hs = "ok".into();
             side.proto = format!("{:?}", st.get_ref().1.protocol_version());
+            side.kind = kind_text(st.get_ref().1.handshake_kind());
             client_ping(&mut st, &mut side).await;
+            (side, Some(st))
+        }
+    }
+}
+
+// ------------------------------------------------------------------------------------------------
+// returning clients: a raw rustls client whose ClientConfig (resumption store) is kept across connections
+// ------------------------------------------------------------------------------------------------
+/// rustls's in-memory client session store, observed: what it handed out and what was put into it.
+#[derive(Debug)]
+struct SpyStore {
+    inner: rustls::client::ClientSessionMemoryCache,
+    /// tickets (TLS 1.3) / sessions (TLS 1.2) handed out for a ClientHello so far
+    handed_out: std::sync::atomic::AtomicU64,
+    /// tickets / sessions stored so far
+    stored: std::sync::atomic::AtomicU64,
+}
+
+impl rustls::client::ClientSessionStore for SpyStore {
+    fn set_kx_hint(&self, server_name: rustls::pki_types::ServerName<'static>, group: rustls::NamedGroup) {
+        self.inner.set_kx_hint(server_name, group);
+    }
+    fn kx_hint(&self, server_name: &rustls::pki_types::ServerName<'_>) -> Option<rustls::NamedGroup> {
+        self.inner.kx_hint(server_name)
+    }
+    fn set_tls12_session(&self, server_name: rustls::pki_types::ServerName<'static>, value: rustls::client::Tls12ClientSessionValue) {
+        self.stored.fetch_add(1, std::sync::atomic::Ordering::SeqCst);
+        self.inner.set_tls12_session(server_name, value);
+    }
+    fn tls12_session(&self, server_name: &rustls::pki_types::ServerName<'_>) -> Option<rustls::client::Tls12ClientSessionValue> {
+        let r = self.inner.tls12_session(server_name);
+        if r.is_some() {
+            self.handed_out.fetch_add(1, std::sync::atomic::Ordering::SeqCst);
+        }
+        r
+    }
+    fn remove_tls12_session(&self, server_name: &rustls::pki_types::ServerName<'static>) {
+        self.inner.remove_tls12_session(server_name);
+    }
+    fn insert_tls13_ticket(&self, server_name: rustls::pki_types::ServerName<'static>, value: rustls::client::Tls13ClientSessionValue) {
+        self.stored.fetch_add(1, std::sync::atomic::Ordering::SeqCst);
+        self.inner.insert_tls13_ticket(server_name, value);
+    }
+    fn take_tls13_ticket(&self, server_name: &rustls::pki_types::ServerName<'static>) -> Option<rustls::client::Tls13ClientSessionValue> {
+        let r = self.inner.take_tls13_ticket(server_name);
+        if r.is_some() {
+            self.handed_out.fetch_add(1, std::sync::atomic::Ordering::SeqCst);
+        }
+        r
+    }
+}
+
+/// One returning client: built once per script and client certificate, used for all its connections.
+struct KeptClient {
+    config: Arc<rustls::ClientConfig>,
+    spy: Arc<SpyStore>,
+}
+
+impl KeptClient {
+    fn counters(&self) -> (u64, u64) {
+        (self.spy.handed_out.load(std::sync::atomic::Ordering::SeqCst), self.spy.stored.load(std::sync::atomic::Ordering::SeqCst))
+    }
+}
+
+/// A raw rustls client configuration (NOT the application's): one protocol version, verifies the server against `ca`,
+/// presents `cert` if asked, ALPN http/1.1 as `tls_connect` does, resumption through a SpyStore of its own.
+fn make_kept_client(cfg: &ClientCfg, tls: &str) -> KeptClient {
+    use rustls::pki_types::pem::PemObject as _;
+    use rustls::pki_types::{CertificateDer, PrivateKeyDer};
+    assert!(!cfg.skip, "tool: the returning client has no skip-verify arm");
+    let mut roots = rustls::RootCertStore::empty();
+    for c in CertificateDer::pem_file_iter(cfg.ca.as_deref().expect("tool: ca")).expect("tool: ca file") {
+        roots.add(c.expect("tool: ca pem")).expect("tool: ca cert");
+    }
+    let version: &'static rustls::SupportedProtocolVersion = match tls {
+        "1.3" => &rustls::version::TLS13,
+        "1.2" => &rustls::version::TLS12,
+        other => panic!("tool: unknown TLS version {other}"),
+    };
+    let provider = rustls::crypto::CryptoProvider::get_default().expect("tool: provider").clone();
+    let b = rustls::ClientConfig::builder_with_provider(provider)
+        .with_protocol_versions(&[version])
+        .expect("tool: protocol version")
+        .with_root_certificates(roots);
+    let mut config = match (&cfg.cert, &cfg.key) {
+        (Some(c), Some(k)) => {
+            let chain: Vec<CertificateDer<'static>> =
+                CertificateDer::pem_file_iter(c).expect("tool: cert file").map(|x| x.expect("tool: cert pem")).collect();
+            let key = PrivateKeyDer::from_pem_file(k).expect("tool: key file");
+            b.with_client_auth_cert(chain, key).expect("tool: client auth")
+        }
+        _ => b.with_no_client_auth(),
+    };
+    config.alpn_protocols = vec![b"http/1.1".to_vec()];
+    let spy = Arc::new(SpyStore {
+        inner: rustls::client::ClientSessionMemoryCache::new(64),
+        handed_out: std::sync::atomic::AtomicU64::new(0),
+        stored: std::sync::atomic::AtomicU64::new(0),
+    });
+    config.resumption = rustls::client::Resumption::store(spy.clone());
+    KeptClient { config: Arc::new(config), spy }
+}
+
+/// The returning clients of one script: one per client certificate, made when first needed.
+struct KeptClients {
+    tls: String,
+    by_cc: HashMap<String, Arc<KeptClient>>,
+}
+
+impl KeptClients {
+    fn new(tls: &str) -> Self {
+        Self { tls: tls.to_string(), by_cc: HashMap::new() }
+    }
+    fn get(&mut self, cc: &str, cfg: &ClientCfg) -> Arc<KeptClient> {
+        let tls = self.tls.clone();
+        self.by_cc.entry(cc.to_string()).or_insert_with(|| Arc::new(make_kept_client(cfg, &tls))).clone()
+    }
+}
+
+/// What a returning client's store did during one connect, into the Side.
+fn put_store_delta(side: &mut Side, kc: &KeptClient, before: (u64, u64)) {
+    let after = kc.counters();
+    side.keep = true;
+    side.offered = after.0 > before.0;
+    side.stored = after.1 - before.1;
+}
+
+/// A returning client connects over the duplex: handshake with the KEPT configuration, then the round trip (which
+/// also takes in the session tickets the server sent after its Finished).
+async fn kept_client_side(io: DuplexStream, kc: Arc<KeptClient>, name: String) -> (Side, Option<ClientStream>) {
+    let before = kc.counters();
+    let connector = tokio_rustls::TlsConnector::from(kc.config.clone());
+    let sname = rustls::pki_types::ServerName::try_from(name).expect("tool: server name");
+    match connector.connect(sname, io).await {
+        Err(e) => {
+            let (k, t) = classify_io(&e);
+            let mut side = Side::failed(k, t);
+            put_store_delta(&mut side, &kc, before);
+            (side, None)
+        }
+        Ok(st) => {
+            let mut st = tokio_rustls::TlsStream::Client(st);
+            let mut side = Side::new();
+            side.hs = "ok".into();
+            side.proto = format!("{:?}", st.get_ref().1.protocol_version());
+            side.kind = kind_text(st.get_ref().1.handshake_kind());
+            client_ping(&mut st, &mut side).await;
+            put_store_delta(&mut side, &kc, before);
             (side, Some(st))
         }
     }
@@ -518,6 +700,7 @@ async fn ref12_client_side(io: DuplexStream, cfg: ClientCfg) -> (Side, Option<Cl
             let mut side = Side::new();
             side.hs = "ok".into();
             side.proto = format!("{:?}", st.get_ref().1.protocol_version());
+            side.kind = kind_text(st.get_ref().1.handshake_kind());
             client_ping(&mut st, &mut side).await;
             (side, Some(st))
         }
@@ -535,6 +718,7 @@ async fn server_side(io: DuplexStream, cfg: Arc<tls::TlsIdentityInner>) -> (Side
             let mut side = Side::new();
             side.hs = "ok".into();
             side.proto = format!("{:?}", st.get_ref().1.protocol_version());
+            side.kind = kind_text(st.get_ref().1.handshake_kind());
             server_echo(&mut st, &mut side).await;
             (side, Some(st))
         }
@@ -578,6 +762,20 @@ fn put_sides(line: &mut Value, c: &Side, s: &Side) {
     o.insert("srv_saw_client_cert".into(), json!(s.peer["n"].as_u64().unwrap_or(0) > 0));
     o.insert("srv_saw_client_cn".into(), s.peer["cn"].clone());
     o.insert("proto".into(), json!(if c.proto.is_empty() { s.proto.clone() } else { c.proto.clone() }));
+    o.insert("seen_fp".into(), c.peer["fp"].clone());
+    put_resumption(o, c);
+    o.insert("srv_hs_kind".into(), json!(s.kind));
+    o.insert("srv_resumed".into(), json!(s.kind == "resumed"));
+}
+
+/// what the client end observed of resumption: whether it is a returning client, what its store handed out / took in,
+/// rustls's handshake kind
+fn put_resumption(o: &mut serde_json::Map<String, Value>, c: &Side) {
+    o.insert("keep".into(), json!(c.keep));
+    o.insert("offered".into(), json!(c.offered));
+    o.insert("stored".into(), json!(c.stored));
+    o.insert("hs_kind".into(), json!(c.kind));
+    o.insert("resumed".into(), json!(c.kind == "resumed"));
 }
 
 fn merge(mut a: Value, b: &Value) -> Value {
@@ -646,7 +844,10 @@ async fn run_script(pki: &Pki, s: &Value, out: &mut Vec<Value>) {
     let id = s["id"].clone();
     let mtls = s["mtls"].as_bool().unwrap_or(false);
     let ops = s["ops"].as_array().expect("tool: ops").clone();
-    out.push(merge(json!({"ev": "script", "id": id, "mtls": mtls, "ops": ops}), &pki.tags()));
+    // the protocol version the returning clients ("keep") of this script speak
+    let tls = s["tls"].as_str().unwrap_or("1.3").to_string();
+    let mut kept = KeptClients::new(&tls);
+    out.push(merge(json!({"ev": "script", "id": id, "mtls": mtls, "ops": ops, "tls": tls}), &pki.tags()));
     let live_crt = pki.path("live.crt");
     let live_key = pki.path("live.key");
     // the server's client CA bundle: ONE path for the whole script (and for every script of this process); its
@@ -686,8 +887,17 @@ async fn run_script(pki: &Pki, s: &Value, out: &mut Vec<Value>) {
                 let (cio, sio) = tokio::io::duplex(1 << 16);
                 // `run_listener`: the configuration is loaded when the connection is accepted
                 let cfg = identity.load_full();
-                let ((c, cst), (s, sst)) = tokio::join!(guarded(client_side(cio, ccfg)), guarded(server_side(sio, cfg)));
+                let keep = op["keep"].as_bool().unwrap_or(false);
+                line["tls"] = json!(if keep { tls.as_str() } else { "1.3" });
+                let ((c, cst), (s, sst)) = if keep {
+                    // a returning client: the ClientConfig made for this certificate at its first connect of the script
+                    let kc = kept.get(&cc, &ccfg);
+                    tokio::join!(guarded(kept_client_side(cio, kc, pki.req_name.clone())), guarded(server_side(sio, cfg)))
+                } else {
+                    tokio::join!(guarded(client_side(cio, ccfg)), guarded(server_side(sio, cfg)))
+                };
                 put_sides(&mut line, &c, &s);
+                line["keep"] = json!(keep);
                 // conn = the slot the script gives this connection (0: the script does not keep it)
                 let both = match (cst, sst) {
                     (Some(a), Some(b)) => Some((a, b)),
@@ -991,7 +1201,43 @@ async fn real_client(port: u16, cfg: ClientCfg) -> (RealObs, Option<RealStream>)
             let mut obs = RealObs { side: Side::new(), status: 0 };
             obs.side.hs = "ok".into();
             obs.side.proto = format!("{:?}", st.get_ref().1.protocol_version());
+            obs.side.kind = kind_text(st.get_ref().1.handshake_kind());
             real_round_trip(&mut st, &cfg.name, &mut obs).await;
+            (obs, Some(st))
+        }
+    }
+}
+
+/// TCP connect + a returning client's handshake with its KEPT configuration + one round trip (the HTTP answer comes
+/// after the session tickets the server sent, so they are in the store when this returns).
+async fn real_kept_client(port: u16, kc: Arc<KeptClient>, name: String) -> (RealObs, Option<RealStream>) {
+    let before = kc.counters();
+    let tcp = match tokio::net::TcpStream::connect(("127.0.0.1", port)).await {
+        Ok(t) => t,
+        Err(e) => return (RealObs { side: Side::failed("tcp_err", format!("{e:?}")), status: 0 }, None),
+    };
+    let _ = tcp.set_nodelay(true);
+    let fd = {
+        use std::os::fd::AsRawFd as _;
+        tcp.as_raw_fd()
+    };
+    let connector = tokio_rustls::TlsConnector::from(kc.config.clone());
+    let sname = rustls::pki_types::ServerName::try_from(name.clone()).expect("tool: server name");
+    match with_quick_ack(fd, connector.connect(sname, tcp)).await {
+        Err(e) => {
+            let (k, t) = classify_io(&e);
+            let mut side = Side::failed(k, t);
+            put_store_delta(&mut side, &kc, before);
+            (RealObs { side, status: 0 }, None)
+        }
+        Ok(st) => {
+            let mut st = tokio_rustls::TlsStream::Client(st);
+            let mut obs = RealObs { side: Side::new(), status: 0 };
+            obs.side.hs = "ok".into();
+            obs.side.proto = format!("{:?}", st.get_ref().1.protocol_version());
+            obs.side.kind = kind_text(st.get_ref().1.handshake_kind());
+            real_round_trip(&mut st, &name, &mut obs).await;
+            put_store_delta(&mut obs.side, &kc, before);
             (obs, Some(st))
         }
     }
@@ -1024,6 +1270,8 @@ fn put_real(line: &mut Value, o: &RealObs) {
     m.insert("seen_serial".into(), o.side.peer["serial"].clone());
     m.insert("seen_issuer".into(), o.side.peer["issuer"].clone());
     m.insert("proto".into(), json!(o.side.proto));
+    m.insert("seen_fp".into(), o.side.peer["fp"].clone());
+    put_resumption(m, &o.side);
 }
 
 fn real_client_cfg(pki: &Pki, cc: &str) -> ClientCfg {
@@ -1075,6 +1323,9 @@ async fn real_script(pki: &Pki, s: &Value, out: &mut Vec<Value>) -> RealEnd {
     let id = s["id"].clone();
     let mtls = s["mtls"].as_bool().unwrap_or(false);
     let ops = s["ops"].as_array().expect("tool: ops").clone();
+    // the protocol version the returning clients ("keep") of this script speak
+    let tls = s["tls"].as_str().unwrap_or("1.3").to_string();
+    let mut kept = KeptClients::new(&tls);
     // (1) of the reload protocol; also disarms the default action of SIGUSR1 for good
     let mut own_usr1 = tokio::signal::unix::signal(tokio::signal::unix::SignalKind::user_defined1())
         .expect("tool: cannot listen for SIGUSR1");
@@ -1095,7 +1346,7 @@ async fn real_script(pki: &Pki, s: &Value, out: &mut Vec<Value>) -> RealEnd {
         timeout: penguin_mux::timing::OptionalDuration::from_secs(SERVER_TIMEOUT_SECS),
         ..Default::default()
     }));
-    out.push(merge(json!({"ev": "rscript", "id": id, "mtls": mtls, "ops": ops, "port": port}), &pki.tags()));
+    out.push(merge(json!({"ev": "rscript", "id": id, "mtls": mtls, "ops": ops, "port": port, "tls": tls}), &pki.tags()));
     let mut server = tokio::spawn(server_main(args));
     // wait until `server_main` listens on the port (or has given up). "Listens" is read from the kernel's socket
     // table: a LISTEN socket on 127.0.0.1:port whose inode is one of this process's descriptors. That cannot be
@@ -1165,8 +1416,17 @@ async fn real_script(pki: &Pki, s: &Value, out: &mut Vec<Value>) -> RealEnd {
                 let cc = op["cc"].as_str().expect("tool: cc").to_string();
                 line["cc"] = json!(cc);
                 pki.ensure_named(&cc);
-                let (obs, st) = guarded_real(real_client(port, real_client_cfg(pki, &cc))).await;
+                let keep = op["keep"].as_bool().unwrap_or(false);
+                line["tls"] = json!(if keep { tls.as_str() } else { "1.3" });
+                let (obs, st) = if keep {
+                    // a returning client: the ClientConfig made for this certificate at its first connect of the script
+                    let kc = kept.get(&cc, &real_client_cfg(pki, &cc));
+                    guarded_real(real_kept_client(port, kc, pki.req_name.clone())).await
+                } else {
+                    guarded_real(real_client(port, real_client_cfg(pki, &cc))).await
+                };
                 put_real(&mut line, &obs);
+                line["keep"] = json!(keep);
                 // conn = the slot the script gives this connection (0: the script does not keep it)
                 match (conn, st) {
                     (0, Some(mut st)) => {
